@@ -300,6 +300,13 @@ func (m *Monitor) Enter(v *goatlang.VM, args, rets, slots int) {
 	if f.base+slots != f.floor {
 		m.report(v, "T2", fmt.Sprintf("frame set-up: base %d + slots %d != stack length %d", f.base, slots, f.floor))
 	}
+	// T9: the new frame's own slots (beyond its parameters) are blank - nothing of an earlier frame shows through
+	for i := f.base + args; i < f.base+slots && i < f.floor; i++ {
+		if t, num, obj := goatlang.VerifRaw(v.VerifStack(i)); t != 0 || num != 0 || obj != nil {
+			m.report(v, "T9", fmt.Sprintf("frame set-up: local slot %d of the new frame is not blank (type tag %d, number %v): a value of an earlier frame shows through", i-f.base, t, num))
+			break
+		}
+	}
 	s.frames = append(s.frames, f)
 }
 
